@@ -144,6 +144,7 @@ func wcBody(env *simrt.Env, check string) {
 
 	basePath := filepath.Join(env.Dir, "data")
 	var sessions []*wcSession
+	var superseded []*wcSession
 	var cur *wcSession
 	state := w.ss.ComputeWritingState()
 	recIdx := 0
@@ -292,6 +293,12 @@ func wcBody(env *simrt.Env, check string) {
 					}
 				}
 			}
+			if cur != nil && !cur.stopped {
+				// a START accepted while the previous session was still active: what that session's
+				// files hold is checked once everything has been stopped
+				superseded = append(superseded, cur)
+				simrt.Hit("start-accepted-while-active")
+			}
 			cur = &wcSession{dir: dir, pattern: now.FilenamePattern, types: [3]bool{now.WriteLJH22, now.WriteLJH3, now.WriteOFF}, expected: make([][3][]*DataRecord, nchan)}
 			sessions = append(sessions, cur)
 			if prev.Paused {
@@ -334,6 +341,12 @@ func wcBody(env *simrt.Env, check string) {
 			cur.stopped = true
 			cur.stopLo, cur.stopHi = lo, time.Now()
 			checkSessionFiles(w, check, cur, hasProj, nbases)
+		}
+	}
+	if check != "C20" {
+		for _, s := range superseded {
+			// records emitted after the newer START belong to the newer session's files only
+			checkSessionFiles(w, check, s, hasProj, nbases)
 		}
 	}
 	w.stop()
